@@ -382,6 +382,199 @@ def warmup():
     raise RuntimeError("numba cache unusable after retries")
 
 
+
+# ---------------------------------------------------------------- hardening streams (dress / optional arguments / aliasing / scaling)
+ARRAY_DRESS = ["int64", "int32", "float32", "F-order", "view-stride2", "view-rows-of-larger", "list", "tuple"]
+OK_F0 = ("fun c => let '(n, M, q, d, mi, (z, su, st, ni)) := c in "
+         "let '(z', su', st', ni') := lcp_lemke n M q d mi 0%float 0%float in "
+         "Bool.eqb su su' && Nat.eqb st st' && Nat.eqb ni ni' && Fs_eqb z' z")
+
+
+def dress_array(a, kind):
+    a = np.asarray(a, dtype=float)
+    if kind in ("int64", "int32", "float32"):
+        return a.astype(getattr(np, kind))
+    if kind == "F-order":
+        return np.asfortranarray(a)
+    if kind == "view-stride2":
+        big = np.full(tuple(2 * d for d in a.shape), 7.0)
+        v = big[tuple(slice(None, None, 2) for _ in a.shape)]
+        v[...] = a
+        return v
+    if kind == "view-rows-of-larger":
+        big = np.full(tuple(d + 2 for d in a.shape), 7.0)
+        v = big[tuple(slice(1, 1 + d) for d in a.shape)]
+        v[...] = a
+        return v
+    if kind == "list":
+        return a.tolist()
+    if kind == "tuple":
+        return tuple(map(tuple, a.tolist())) if a.ndim == 2 else tuple(a.tolist())
+    raise ValueError(kind)
+
+
+def is_typing_rejection(e):
+    """numba refuses the argument types at dispatch (documented types are float ndarrays): a rejection, not a result"""
+    return (type(e).__name__ in ("TypingError", "TypeError", "NumbaTypeError", "UnsupportedError")
+            or (isinstance(e, ValueError) and "fingerprint" in str(e)))
+
+
+def lcp_arrays(case):
+    n = case["n"]
+    return dict(M=np.array([[float(x) for x in r] for r in case["M"]], dtype=float).reshape(n, n),
+                q=np.array([float(x) for x in case["q"]], dtype=float),
+                d=None if case["d"] is None else np.array([float(x) for x in case["d"]], dtype=float))
+
+
+def lcp_hardening(ctx, cases, outs, thorough):
+    """classes 1, 3, 4, 5, 6 of the hardening audit for lcp_lemke; canonical result = outs[i] (already compared with the models)"""
+    from quantecon.optimize import lcp_lemke
+    from quantecon.optimize.linprog_simplex import PivOptions, FEA_TOL, TOL_PIV, TOL_RATIO_DIFF
+    rng = ctx.rng
+    isint = lambda c: all(Fraction(v).denominator == 1 for v in c["q"] + [a for r in c["M"] for a in r] + (c["d"] or []))
+    pool = [i for i, c in enumerate(cases) if "buf" not in c and c["max_iter"] == 1000 and not c["real"] and isint(c) and c["n"] >= 2
+            and any(v < 0 for v in c["q"])]
+    per = 6 if thorough else 2
+    zero_cases = []
+
+    def call(i, what, label, case=None, **kw):
+        case = cases[i] if case is None else case
+        args = lcp_arrays(case)
+        args.update(what)
+        snap = {k: (np.array(v, copy=True) if isinstance(v, np.ndarray) else v) for k, v in args.items()}
+        ctx.count(label)
+        ctx.case(("lcp-hardening", label, i), nontrivial=False)
+        try:
+            r = lcp_lemke(args["M"], args["q"], d=args["d"], **dict(dict(max_iter=1000), **kw))
+        except Exception as e:
+            if is_typing_rejection(e):
+                ctx.count(label + ":rejected(TypingError)")
+                return None
+            ctx.fail("lcp_exception", "lcp_lemke raised %s on a valid input (%s)" % (repr(e)[:200], label), dict(case_input(case), dress=label), repr(e)[:200], None)
+            return None
+        out = ([float(x) for x in r.z], bool(r.success), int(r.status), int(r.num_iter))
+        for k, v in args.items():
+            if isinstance(v, np.ndarray):
+                if not (v.dtype == snap[k].dtype and np.array_equal(v, snap[k])):
+                    ctx.fail("lcp_mutates_argument", "lcp_lemke changed its argument %s (%s)" % (k, label), dict(case_input(case), dress=label), out, None)
+                if np.shares_memory(r.z, v):
+                    ctx.fail("lcp_result_aliases_argument", "z shares memory with argument %s (%s)" % (k, label), dict(case_input(case), dress=label), out, None)
+        return out, r
+
+    def expect_same(i, res, label):
+        if res is None:
+            return
+        out = res[0]
+        if out != outs[i]:
+            ctx.fail("lcp_dress_changes_result", "result differs from the canonical float64 call (%s): %r" % (label, outs[i]),
+                     dict(case_input(cases[i]), dress=label), dict(zip(("z", "success", "status", "num_iter"), out)), None)
+            return
+        for kind, what in oracle(ctx, cases[i], out, record=False):
+            ctx.fail(kind, what + " (%s)" % label, dict(case_input(cases[i]), dress=label), out, None)
+
+    pool_d = [i for i in pool if cases[i]["d"] is not None]
+    for kind in ARRAY_DRESS:
+        for i in rng.sample(pool, per):
+            a = lcp_arrays(cases[i])
+            # M and q together (d: float64 ndarray or None, the only forms the jitted signature unifies with np.ones(n))
+            expect_same(i, call(i, {"M": dress_array(a["M"], kind), "q": dress_array(a["q"], kind)}, "dress:M,q:" + kind), "M, q " + kind)
+        i = rng.choice(pool)
+        arg = rng.choice(["M", "q"])
+        expect_same(i, call(i, {arg: dress_array(lcp_arrays(cases[i])[arg], kind)}, "dress:%s:%s" % (arg, kind)), "%s %s" % (arg, kind))
+        i = rng.choice(pool_d)
+        expect_same(i, call(i, {"d": dress_array(lcp_arrays(cases[i])["d"], kind)}, "dress:d:" + kind), "d " + kind)
+    forms = [("python-int", 1000), ("np.int64", np.int64(1000)), ("np.int32", np.int32(1000)), ("np.intp", np.intp(1000))]
+    if thorough:
+        forms += [("np.uint16", np.uint16(1000)), ("np.int16", np.int16(1000))]
+    for name, mi in forms:
+        for i in rng.sample(pool, per):
+            expect_same(i, call(i, {}, "max_iter:" + name, max_iter=mi), "max_iter " + name)
+    for i in rng.sample(pool, per):
+        a = lcp_arrays(cases[i])
+        ctx.count("max_iter:omitted")
+        r = lcp_lemke(a["M"], a["q"], d=a["d"])
+        expect_same(i, (([float(x) for x in r.z], bool(r.success), int(r.status), int(r.num_iter)), r), "max_iter omitted")
+        res = call(i, {}, "max_iter:0(falsy)", max_iter=0)      # the first pivot is always made: status 1, num_iter 1
+        if res is not None and not (res[0][2] == 1 and res[0][1] is False and res[0][3] == 1):
+            ctx.fail("lcp_max_iter_zero", "max_iter=0 must give status 1 after the initial pivot", dict(case_input(cases[i]), max_iter=0), res[0], None)
+        if cases[i]["d"] is None:       # d omitted vs explicit ones
+            expect_same(i, call(i, {"d": np.ones(cases[i]["n"])}, "d:explicit-ones-vs-omitted"), "d = ones")
+    for i in rng.sample(pool, 3 * per):
+        expect_same(i, call(i, {}, "piv_options:PivOptions()", piv_options=PivOptions()), "piv_options=PivOptions()")
+        expect_same(i, call(i, {}, "piv_options:explicit-values", piv_options=PivOptions(FEA_TOL, TOL_PIV, TOL_RATIO_DIFF)), "explicit tolerances")
+        res = call(i, {}, "piv_options:zeros(0.0)", piv_options=PivOptions(0.0, 0.0, 0.0))
+        if res is not None:
+            zero_cases.append((cases[i], res[0]))
+    i, j = rng.sample(pool, 2)
+    r1, r2 = call(i, {}, "alias:successive-results"), call(j, {}, "alias:successive-results")
+    if r1 and r2 and np.shares_memory(r1[1].z, r2[1].z):
+        ctx.fail("lcp_results_alias", "z of two successive calls share memory", case_input(cases[i]), None, None)
+    # 5. degenerate sizes
+    for label, c in (("size:n=0", dict(kind="GEN", n=0, M=[], q=[], d=None, max_iter=1000, real=False)),
+                     ("size:n=1,q=0", dict(kind="PD", n=1, M=[[Fraction(1)]], q=[Fraction(0)], d=None, max_iter=1000, real=False)),
+                     ("size:n=1,M=0,q<0", dict(kind="PSD", n=1, M=[[Fraction(0)]], q=[Fraction(-1)], d=None, max_iter=1000, real=False))):
+        res = call(-1, {}, label, case=c)
+        if res is not None:
+            c["classes"] = classify(c["M"]) if c["n"] else set()
+            for kind, what in (oracle(ctx, c, res[0], record=False) if c["n"] else []):
+                ctx.fail(kind, what + " (%s)" % label, case_input(c), res[0], None)
+            if c["n"] == 0 and not (res[0][0] == [] and res[0][1] and res[0][2] == 0):
+                ctx.fail("lcp_empty", "n=0 must return the empty solution with success", case_input(c), res[0], None)
+    # 4./5. exact tolerances crossed with near-ties (1e-9 .. 1e-8) in the initial ratio test min q_i/d_i and in later ratios
+    near_default = []
+    for _ in range(16 if thorough else 5):
+        i = rng.choice(pool)
+        c = dict(cases[i])
+        q = list(c["q"])
+        dd = c["d"] or [Fraction(1)] * c["n"]
+        r = [q[t] / dd[t] for t in range(c["n"])]
+        t0 = r.index(min(r))
+        t1 = rng.choice([t for t in range(c["n"]) if t != t0])
+        q[t1] = (min(r) + frac(rng.choice([1e-9, 3e-9, 1e-8])) * rng.choice([1, -1])) * dd[t1]
+        c["q"] = [frac(float(v)) for v in q]
+        c["real"] = True
+        c["classes"] = cases[i]["classes"]
+        for label, po in (("near-tie:default-tolerances", PivOptions()), ("near-tie:zero-tolerances", PivOptions(0.0, 0.0, 0.0))):
+            res = call(-1, {}, label, case=c, piv_options=po)
+            if res is None:
+                continue
+            if "zero" in label:
+                zero_cases.append((c, res[0]))     # exact tolerances on inexact data: model correspondence only
+            else:
+                near_default.append((c, res[0]))   # a quantity inside (0, tol]: outside the quantifier, model correspondence only
+    return zero_cases, near_default
+
+
+def lcp_scaled_stream(ctx, thorough):
+    """oracle-only: integer problems with (M, q) or d scaled by 1e6 / 1e3 / 1e-1"""
+    rng = ctx.rng
+    for t in range(150 if thorough else 30):
+        c = gen_case(rng, thorough)
+        if c["max_iter"] != 1000:
+            c["max_iter"] = 1000
+        # exact scalings only (1/8 instead of 1e-1), so that the exact class membership of M is not blurred by rounding
+        fam = ["(M,q)*1e6", "(M,q)*1e3", "(M,q)/8", "d*1e3", "q*1e6"][t % 5]
+        sc = {"(M,q)*1e6": Fraction(10**6), "(M,q)*1e3": Fraction(10**3), "(M,q)/8": Fraction(1, 8)}.get(fam)
+        if sc is not None:
+            c["M"] = [[frac(float(a * sc)) for a in r] for r in c["M"]]
+            c["q"] = [frac(float(v * sc)) for v in c["q"]]
+        elif fam == "d*1e3":
+            c["d"] = [v * 1000 for v in (c["d"] or [Fraction(1)] * c["n"])]
+        else:
+            c["q"] = [v * 10**6 for v in c["q"]]
+        c["real"] = True
+        c["classes"] = classify(c["M"])
+        ctx.count("scaled:" + fam)
+        ctx.case(("lcp-scaled", fam, tuple(map(tuple, c["M"])), tuple(c["q"])), nontrivial=c["n"] >= 2)
+        try:
+            out = run_impl(c)
+        except Exception as e:
+            ctx.fail("lcp_exception", "lcp_lemke raised %s on a valid (scaled) input" % repr(e)[:200], case_input(c), repr(e)[:200], None)
+            continue
+        for kind, what in oracle(ctx, c, out, record=False):
+            ctx.fail(kind, what + " (%s)" % fam, case_input(c), dict(zip(("z", "success", "status", "num_iter"), out)), None)
+
+
 def run(ctx):
     thorough = ctx.tier == "thorough"
     warmup()
@@ -408,7 +601,13 @@ def run(ctx):
                 ctx.fail("lcp_buffers", what, dict(case_input(case), buffers=case["buf"][1], position_in_sequence=case["buf"][2]),
                          dict(zip(("z", "success", "status", "num_iter"), out)), None)
         else:
-            out = run_impl(case)
+            try:
+                out = run_impl(case)
+            except OSError:
+                raise
+            except Exception as e:      # any exception on a valid problem is a violation with that input, never a harness crash
+                ctx.fail("lcp_exception", "lcp_lemke raised %s on a valid problem" % repr(e)[:200], case_input(case), repr(e)[:200], None)
+                out = ([0.0] * case["n"], False, 1, 0)
         outs.append(out)
         z, su, st, ni = out
         nontriv = case["n"] >= 2 and any(x < 0 for x in case["q"])
@@ -438,6 +637,15 @@ def run(ctx):
         model = ctx.coq_eval(IMPORTS, "let '(n, M, q, d, mi, _) := %s in lcp_lemke n M q d mi lp_TOL_PIV_f lp_TOL_RATIO_DIFF_f" % coq_cases_f[i])
         ctx.mismatch("C11.Model.lcp_lemke (binary64 instance) vs optimize.lcp_lemke: z, status, num_iter bit-exact",
                      case_input(cases[i]), dict(zip(("z", "success", "status", "num_iter"), outs[i])), model[:1500])
+    # (1b) hardening streams: dress, optional arguments, aliasing, degenerate sizes, near-ties with exact tolerances, scaled data
+    zero_cases, near_default = lcp_hardening(ctx, cases, outs, thorough)
+    lcp_scaled_stream(ctx, thorough)
+    for nm, okf, cs in (("lcp_lemke_float_bitexact:tolerances-0(piv_options zeros, near-ties)", OK_F0, zero_cases),
+                        ("lcp_lemke_float_bitexact:near-ties", OK_F, near_default)):
+        badz = ctx.coq_check(nm, IMPORTS, CTYPE_F, okf, [coq_case_f(c, o) for c, o in cs], chunk=20)
+        for i in badz:
+            ctx.mismatch("C11.Model.lcp_lemke (binary64 instance) vs optimize.lcp_lemke: " + nm, case_input(cs[i][0]),
+                         dict(zip(("z", "success", "status", "num_iter"), cs[i][1])), "")
     # (2) exact arithmetic (the instance the theorems are about), tolerances of the source
     bad = ctx.coq_check("lcp_lemke_exactQ", IMPORTS, CTYPE, OK_SRC, coq_cases, chunk=60)
     for i in bad:
